@@ -269,6 +269,14 @@ func e1Seeds() (box []e1Seed, file []e1Seed) {
 		addBox("raw/sdtp", "sdtp", t.SdtpBytes())
 		u := tableref.Tables{StszCount: 4, StszUniform: 7}
 		addBox("raw/stsz uniform", "stsz", u.StszBytes())
+		// QuickTime form of meta: no version/flags, the payload starts with the hdlr child
+		if h, err := mp4.CreateHdlr("vide"); err == nil {
+			var hb bytes.Buffer
+			if h.Encode(&hb) == nil {
+				addBox("raw/meta QuickTime form (hdlr first, no version and flags)", "meta", tableref.Box("meta", hb.Bytes(), tableref.Box("free", []byte{1, 2, 3})))
+				addBox("raw/meta MPEG form", "meta", tableref.Box("meta", []byte{0, 0, 0, 0}, hb.Bytes(), tableref.Box("free", []byte{1, 2, 3})))
+			}
+		}
 	}
 	// S3: tiny generated files (progressive and fragmented, incl. encrypted-looking layouts come from C06 later)
 	for i, sp := range e1TinyProgSpecs() {
